@@ -122,8 +122,10 @@ LEVEL = {
     "C18": ("proof", "Lean theorems for EVERY point count n and interval a<b: midpoint/trapezoid/Simpson have positive weights, strictly increasing nodes "
             "in [a,b], weights summing to b-a and are exact to degree 1/1/3 (Simpson via a panel decomposition of the loop's 1,4,2,..,4,1 pattern, all odd n); "
             "affine transport: a rule exact to degree d on [-1,1] is exact to degree d on [a,b] under the code's map (all polynomials), so Gauss-Legendre = "
-            "numpy leggauss contract + this theorem; counterexample theorem for the originally pinned weights*=0.5. Partial: Clenshaw-Curtis exactness "
-            "for all n is not proved (only its post-processing); CC and the leggauss contract are tested per n (2..64 quick, ..1024 thorough) in 60-digit "
+            "numpy leggauss contract + this theorem; counterexample theorem for the originally pinned weights*=0.5. Clenshaw-Curtis is modelled completely "
+            "(the inverse FFT by its definition, the inverse DFT): for every n>=2 the weights sum to b-a (roots-of-unity sums + telescoping), nodes strictly "
+            "increasing in [a,b] with ends a and b, end weights positive in closed form. Partial: positivity of the interior CC weights and CC exactness to "
+            "degree n-1 for all n are not proved; CC and the leggauss contract are tested per n (2..64 quick, ..384 thorough) in 60-digit "
             "arithmetic. Spawn-stack tensor structure: oracle on the implementation (theorem with the SpawnStack model, C10)", "7 C18", NOTE,
             "Lean 4 theorems (Finset sums, induction on panels, Polynomial.comp + integral substitution) + correspondence for all five rules"),
     "C19": ("proof", "Lean theorems: scaled Boltzmann momenta have kinetic energy per dof exactly kT/2 (any masses>0, T>=0, any draws with "
